@@ -62,12 +62,17 @@ def case_strategy(draw):
     perm = draw(st.permutations(list(range(n))))
     opt = draw(st.sampled_from(['bkspace', 'nbkpts']))
     kw = dict(nbkpts=draw(st.integers(4, 9))) if opt == 'nbkpts' else dict(bkspace=span / draw(st.integers(3, 8)) * (1 + 0.03 * draw(uf)))
+    exact = None
+    if opt == 'bkspace' and draw(st.integers(0, 2)) == 0:
+        # a spacing that divides the range of the weighted data exactly (0.1 into 1, 0.4 into 10, ...): the end points are put on x0 and x0 + span
+        kw = dict(bkspace=span / draw(st.sampled_from([5, 10, 4, 8, 25, 20])))
+        exact = [x0, x0 + span]
     return dict(x=x, sigma=sigma, amp=amp, ph=ph, noise=noise, outl=outl, osign=osign, zeros=zeros, neg=neg, perm=list(perm),
                 nord=draw(st.sampled_from([4, 3, 2])), kw=kw,
                 upper=draw(st.one_of(st.sampled_from([0, 0.0, 5]), uf.map(lambda v: 3 + 3 * 0.5 * (1 + v)), uf.map(lambda v: 3 + 3 * 0.5 * (1 + v)), uf.map(lambda v: 3 + 3 * 0.5 * (1 + v)))),
                 lower=draw(st.one_of(st.sampled_from([0, 0.0, 5]), uf.map(lambda v: 3 + 3 * 0.5 * (1 + v)), uf.map(lambda v: 3 + 3 * 0.5 * (1 + v)), uf.map(lambda v: 3 + 3 * 0.5 * (1 + v)))),
                 maxiter=draw(st.sampled_from([3, 2, 10, 1, 0])), wvary=draw(st.booleans()),
-                weights=draw(st.sampled_from(['invvar', 'invvar', 'invvar', 'none', 'none-integer-y'])),
+                weights=draw(st.sampled_from(['invvar', 'invvar', 'invvar', 'none', 'none-integer-y'])), exact_range=exact,
                 # some abscissae occur twice or three times (two exposures on one grid, rounded positions)
                 dups=draw(st.sampled_from([[], [], draw(st.lists(st.tuples(st.integers(1, n - 2), st.integers(1, n - 2)), min_size=1, max_size=8))])))
 
@@ -87,6 +92,12 @@ def build(case):
     for i, j in case.get('dups', []):
         x[j] = x[i]
     n = len(x)
+    if case.get('exact_range'):
+        w0 = np.ones(n, dtype=bool)
+        w0[case['zeros']] = False
+        w0[case['neg']] = False
+        gi = np.nonzero(w0)[0]
+        x[gi[np.argmin(x[gi])]], x[gi[np.argmax(x[gi])]] = case['exact_range']
     s = (x - x.min()) / (x.max() - x.min())
     ph = case['ph']
     sig = case['sigma'] * case['amp']
@@ -166,6 +177,13 @@ def body(case):
         check(all(np.array_equal(a, b) for a, b in zip(keep, (x, y, iv))), 'inputs-modified')
         t = np.asarray(sset.breakpoints, dtype='f8')
         lo, hi = t[nord - 1], t[len(t) - nord]
+        if 'bkspace' in kw and wmode == 'invvar':
+            # breakpoints `bkspace` apart over the weighted data: when the spacing divides their range exactly there are range/bkspace + 1
+            xg = x[iv > 0]
+            q = (xg.max() - xg.min()) / kw['bkspace']
+            if q == int(q):
+                check(len(t) - 2 * (nord - 1) == int(q) + 1, 'bkspace-not-honoured', lambda: dict(bkspace=kw['bkspace'], breakpoints=len(t) - 2 * (nord - 1), want=int(q) + 1))
+                note_label('bkspace-divides-range')
     grid = lo + (hi - lo) * np.linspace(0.0, 1.0, 41)
     curve, gm = call(sset.value, grid.copy())
     curve_p, _ = call(sset_p.value, grid.copy())
@@ -231,7 +249,55 @@ def nontrivial(case, labels):
             and 'near-threshold-skipped' not in labels)
 
 
+# ------------------------------------------------------------------ residuals exactly on a rejection limit
+@st.composite
+def tie_case(draw):
+    m = draw(st.integers(2, 6))
+    ys = []
+    for _ in range(m):
+        b = 4 * draw(st.integers(-3, 3))
+        ys.append([b + 4 * draw(st.sampled_from([0, 0, 1, -1, 2, -2, 3, -3, 4])) for _ in range(4)])
+    return dict(ys=ys, U=draw(st.sampled_from([3, 6, 2, 5, 9, 4, 1])), ivar=draw(st.sampled_from([1.0, 4.0, 0.25])), perm=list(draw(st.permutations(list(range(4 * m))))),
+                side=draw(st.sampled_from(['both', 'upper', 'lower'])))
+
+
+def tie_body(case):
+    """Order 1 (piecewise constant) fit of integer data, four points per interval, weights 1, 4 or 1/4: every interval mean and every
+    normalised residual is a whole (or dyadic) number, computed exactly by any correct implementation.  One fit and one rejection
+    pass (maxiter = 0): exactly the points whose normalised residual is beyond the limit are flagged, a point ON the limit is not."""
+    from pydl.pydlutils.bspline import iterfit
+    ys = np.array(case['ys'], dtype='f8')
+    m = len(ys)
+    x = 0.5 + np.arange(4 * m, dtype='f8')
+    y = ys.ravel()
+    iv = np.full(4 * m, case['ivar'])
+    U = float(case['U'])
+    kw = dict(nord=1, bkpt=4.0 * np.arange(m + 1), maxiter=0)
+    if case['side'] in ('both', 'upper'):
+        kw['upper'] = U
+    else:
+        kw['upper'] = 1e6
+    if case['side'] in ('both', 'lower'):
+        kw['lower'] = U
+    else:
+        kw['lower'] = 1e6
+    perm = np.array(case['perm'])
+    sset, mask = call(iterfit, x[perm].copy(), y[perm].copy(), invvar=iv[perm].copy(), **kw)
+    r = (ys - ys.mean(1, keepdims=True)).ravel() * np.sqrt(case['ivar'])        # exact: sums of four multiples of 4, divided by 4
+    want = ~((r > kw['upper']) | (r < -kw['lower']))
+    with judge('ties'):
+        got = np.zeros(4 * m, dtype=bool)
+        got[perm] = np.asarray(mask, dtype=bool)
+        check(np.array_equal(got, want), 'mask-differs-on-exactly-representable-residuals',
+              lambda: dict(residuals=r.tolist(), upper=kw['upper'], lower=kw['lower'], got=got.tolist(), want=want.tolist()))
+    if (np.abs(r) == U).any():
+        note_label('residual-exactly-on-limit')
+
+
 SUBCHECKS = [
+    SubCheck('exact_ties', tie_body, strategy=tie_case, classify=lambda c: ['side:' + c['side'], 'U:%d' % c['U']],
+             nontrivial=lambda c, l: 'residual-exactly-on-limit' in l, quick=800, thorough=20000, shards=(4, 16),
+             doc='normalised residuals that are exactly on a rejection limit are not beyond it (exact arithmetic case: order 1, integer data)'),
     SubCheck('iterfit_procedure', body, strategy=case_strategy, classify=classify, nontrivial=nontrivial,
              quick=2400, thorough=60000, shards=(16, 16), doc='permutation invariance, weight handling, reference fit/reject/refit procedure'),
 ]
